@@ -514,6 +514,85 @@ def a_select_multiple_space(form, j):
     return f, {"cites": ["sp ace", f["choices"][j]["list_name"]], "model": False}
 
 
+PRIMERS = ("select_one", "rank", "select_one-or_other", "select_multiple-filtered")
+
+
+def s_primed(form):
+    """(choice row j, primer kind, where): a row that legitimately uses list L comes first, the offending row later"""
+    return [(j, pk, w) for j in range(len(form.get("choices") or [])) for pk in PRIMERS for w in ("adjacent", "far", "in-group")]
+
+
+def _primer_row(form, ln, pk, name):
+    row = {"type": f"select_one {ln}", "name": name, "label": "P"}
+    if pk == "rank":
+        row["type"] = f"rank {ln}"
+    elif pk == "select_one-or_other":
+        row["type"] = f"select_one {ln} or_other"
+    elif pk == "select_multiple-filtered":
+        row["type"] = f"select_multiple {ln}"
+        row["choice_filter"] = "name != 'zz'"
+    return row
+
+
+def _place_primed(form, primer, offender, where):
+    f = clone(form)
+    if where == "adjacent":
+        f["survey"] += [primer, offender]
+    elif where == "far":
+        f["survey"].insert(0, primer)
+        f["survey"].append(offender)
+    else:
+        g = fresh(form, "prg")
+        f["survey"].insert(0, primer)
+        f["survey"] += [{"type": "begin group", "name": g, "label": "G"}, offender, {"type": "end group"}]
+    return f
+
+
+def a_select_multiple_space_primed(form, site):
+    """the list of a select_multiple has a choice name with a space — and an earlier select_one / rank / … on the same
+    list (for which such names are fine, or which was checked before the name existed in that row's view) comes first"""
+    j, pk, where = site
+    ln = form["choices"][j].get("list_name")
+    if pk == "select_multiple-filtered":
+        return None, None  # a select_multiple primer is itself the offender
+    f = _place_primed(form, _primer_row(form, ln, pk, fresh(form, "prim")),
+                      {"type": f"select_multiple {ln}", "name": fresh(form, "offm"), "label": "M"}, where)
+    f["choices"][j]["name"] = "sp ace"
+    if any(rtype(r).startswith(("select_multiple " + str(ln),)) for r in form["survey"]):
+        pass  # an existing select_multiple on the list is rejected first: same error, same citation
+    return f, {"cites": ["sp ace", ln], "model": False}
+
+
+def a_or_other_filter_primed(form, site):
+    j, pk, where = site
+    ln = form["choices"][j].get("list_name")
+    f = _place_primed(form, _primer_row(form, ln, pk, fresh(form, "prim")),
+                      {"type": f"select_one {ln} or_other", "name": fresh(form, "offo"), "label": "O", "choice_filter": "name != 'x'"}, where)
+    n = len(f["survey"]) + 1 if where != "in-group" else len(f["survey"])
+    return f, {"row": n, "cites": ["or_other"], "model": False}
+
+
+def a_select_params_primed(form, site):
+    j, pk, where = site
+    ln = form["choices"][j].get("list_name")
+    f = _place_primed(form, _primer_row(form, ln, pk, fresh(form, "prim")),
+                      {"type": f"select_one {ln}", "name": fresh(form, "offp"), "label": "O", "parameters": "randomize=maybe"}, where)
+    return f, {"cites": ["randomize"], "model": False}
+
+
+def a_dup_sibling_primed(form, site):
+    """a name legitimately used in one section first, then twice among the siblings of a later section"""
+    j, pk, where = site
+    if pk != "select_one" or where == "adjacent":
+        return None, None
+    f = clone(form)
+    g1, g2, n = fresh(form, "dsa"), fresh(form, "dsb"), fresh(form, "dsn")
+    f["survey"] += [{"type": "begin group", "name": g1, "label": "G"}, {"type": "text", "name": n + "_only", "label": "T"}, {"type": "end group"},
+                    {"type": "begin group", "name": g2, "label": "G"}, {"type": "text", "name": n, "label": "T"},
+                    {"type": "integer", "name": n.upper() if where == "far" else n, "label": "T"}, {"type": "end group"}]
+    return f, {"cites": [n], "lower": True, "model": False}
+
+
 def s_or_other_filter(form):
     ls = lists_of(form)
     return [i for i, r in enumerate(form["survey"])
@@ -1147,6 +1226,10 @@ CATALOGUE = [
     ("dup_choice", s_dup_choice, a_dup_choice),
     ("select_multiple_space", s_select_multiple_space, a_select_multiple_space),
     ("or_other_filter", s_or_other_filter, a_or_other_filter),
+    ("select_multiple_space_primed", s_primed, a_select_multiple_space_primed),
+    ("or_other_filter_primed", s_primed, a_or_other_filter_primed),
+    ("select_params_primed", s_primed, a_select_params_primed),
+    ("dup_sibling_primed", s_primed, a_dup_sibling_primed),
     ("table_list_mismatch", positions, a_table_list_mismatch),
     ("table_list_filter", positions, a_table_list_filter),
     ("params", s_params, a_params),
